@@ -2,7 +2,7 @@
 //! (AsyncMemoryFS, AsyncPhysicalFS, AsyncAltrootFS, AsyncOverlayFS), the same observer and the same
 //! operation executor, producing the same records as the sync side so that the same Level A judges
 //! them.  Everything runs on a tokio current-thread runtime, like the repository's own async tests.
-use crate::cfg::{fresh_tmp, parse, Term};
+use crate::cfg::{fresh_tmp, parse, FaultCtl, Term};
 use crate::exec::{Op, Res};
 use crate::names::*;
 use crate::obs::{class_of, Conc};
@@ -224,6 +224,8 @@ pub struct AWorld {
     pub rt: tokio::runtime::Runtime,
     /// roots of the layers of a TOP-LEVEL overlay (index 0 = write layer), for pre-population
     pub layers: Vec<AsyncVfsPath>,
+    /// controls of the fault(..) wrappers in the term
+    pub faults: Vec<Arc<FaultCtl>>,
 }
 impl Drop for AWorld {
     fn drop(&mut self) {
@@ -232,8 +234,96 @@ impl Drop for AWorld {
         }
     }
 }
+thread_local! {
+    static AFAULTS: std::cell::RefCell<Vec<Arc<FaultCtl>>> = std::cell::RefCell::new(vec![]);
+}
 fn build_afs(t: &Term, tmp: &mut Vec<PathBuf>, rt: &tokio::runtime::Runtime) -> Box<dyn AsyncFileSystem> {
     build_afs_top(t, tmp, rt, &mut vec![], false)
+}
+
+// ------------------------------------------------------------------ AsyncFaultFS (C20 on the async port)
+/// fails the k-th call into the wrapped async filesystem with an I/O error (same control as the sync FaultFS)
+pub struct AsyncFaultFS {
+    pub inner: Box<dyn AsyncFileSystem>,
+    pub ctl: Arc<FaultCtl>,
+}
+impl std::fmt::Debug for AsyncFaultFS {
+    fn fmt(&self, f: &mut std::fmt::Formatter<'_>) -> std::fmt::Result {
+        write!(f, "AsyncFaultFS({:?})", self.inner)
+    }
+}
+fn ainjected<T>() -> VfsResult<T> {
+    Err(VfsErrorKind::IoError(std::io::Error::new(std::io::ErrorKind::Other, "injected fault")).into())
+}
+macro_rules! afault {
+    ($self:ident, $name:expr) => {
+        if $self.ctl.hit($name) {
+            return ainjected();
+        }
+    };
+}
+#[async_trait]
+impl AsyncFileSystem for AsyncFaultFS {
+    async fn read_dir(&self, path: &str) -> VfsResult<Box<dyn Unpin + Stream<Item = String> + Send>> {
+        afault!(self, "read_dir");
+        self.inner.read_dir(path).await
+    }
+    async fn create_dir(&self, path: &str) -> VfsResult<()> {
+        afault!(self, "create_dir");
+        self.inner.create_dir(path).await
+    }
+    async fn open_file(&self, path: &str) -> VfsResult<Box<dyn SeekAndRead + Send + Unpin>> {
+        afault!(self, "open_file");
+        self.inner.open_file(path).await
+    }
+    async fn create_file(&self, path: &str) -> VfsResult<Box<dyn async_std::io::Write + Send + Unpin>> {
+        afault!(self, "create_file");
+        self.inner.create_file(path).await
+    }
+    async fn append_file(&self, path: &str) -> VfsResult<Box<dyn async_std::io::Write + Send + Unpin>> {
+        afault!(self, "append_file");
+        self.inner.append_file(path).await
+    }
+    async fn metadata(&self, path: &str) -> VfsResult<VfsMetadata> {
+        afault!(self, "metadata");
+        self.inner.metadata(path).await
+    }
+    async fn set_creation_time(&self, path: &str, time: SystemTime) -> VfsResult<()> {
+        afault!(self, "set_creation_time");
+        self.inner.set_creation_time(path, time).await
+    }
+    async fn set_modification_time(&self, path: &str, time: SystemTime) -> VfsResult<()> {
+        afault!(self, "set_modification_time");
+        self.inner.set_modification_time(path, time).await
+    }
+    async fn set_access_time(&self, path: &str, time: SystemTime) -> VfsResult<()> {
+        afault!(self, "set_access_time");
+        self.inner.set_access_time(path, time).await
+    }
+    async fn exists(&self, path: &str) -> VfsResult<bool> {
+        afault!(self, "exists");
+        self.inner.exists(path).await
+    }
+    async fn remove_file(&self, path: &str) -> VfsResult<()> {
+        afault!(self, "remove_file");
+        self.inner.remove_file(path).await
+    }
+    async fn remove_dir(&self, path: &str) -> VfsResult<()> {
+        afault!(self, "remove_dir");
+        self.inner.remove_dir(path).await
+    }
+    async fn copy_file(&self, src: &str, dest: &str) -> VfsResult<()> {
+        afault!(self, "copy_file");
+        self.inner.copy_file(src, dest).await
+    }
+    async fn move_file(&self, src: &str, dest: &str) -> VfsResult<()> {
+        afault!(self, "move_file");
+        self.inner.move_file(src, dest).await
+    }
+    async fn move_dir(&self, src: &str, dest: &str) -> VfsResult<()> {
+        afault!(self, "move_dir");
+        self.inner.move_dir(src, dest).await
+    }
 }
 fn build_afs_top(t: &Term, tmp: &mut Vec<PathBuf>, rt: &tokio::runtime::Runtime, keep: &mut Vec<AsyncVfsPath>, top: bool) -> Box<dyn AsyncFileSystem> {
     match t {
@@ -258,7 +348,11 @@ fn build_afs_top(t: &Term, tmp: &mut Vec<PathBuf>, rt: &tokio::runtime::Runtime,
             }
             Box::new(AsyncOverlayFS::new(&roots))
         }
-        Term::Fault(inner) => build_afs(inner, tmp, rt),
+        Term::Fault(inner) => {
+            let ctl = FaultCtl::new();
+            AFAULTS.with(|f| f.borrow_mut().push(ctl.clone()));
+            Box::new(AsyncFaultFS { inner: build_afs(inner, tmp, rt), ctl })
+        }
         Term::OvlSub(n) => {
             let shared = AsyncVfsPath::new(AsyncMemoryFS::new());
             let roots: Vec<AsyncVfsPath> = (1..=*n)
@@ -288,14 +382,16 @@ pub fn abuild(cfg: &str, pending: bool) -> AWorld {
     let rt = tokio::runtime::Builder::new_current_thread().enable_all().build().unwrap();
     let mut tmp = vec![];
     let mut layers = vec![];
+    AFAULTS.with(|f| f.borrow_mut().clear());
     let fs = build_afs_top(&term, &mut tmp, &rt, &mut layers, true);
+    let faults = AFAULTS.with(|f| std::mem::take(&mut *f.borrow_mut()));
     let (root, pend) = if pending {
         let ctl = PendCtl::new();
         (AsyncVfsPath::new(PendingFS { inner: fs, ctl: ctl.clone() }), Some(ctl))
     } else {
         (AsyncVfsPath::new(BoxAFS(fs)), None)
     };
-    AWorld { root, term, cfg: cfg.to_string(), tmp, pend, rt, layers }
+    AWorld { root, term, cfg: cfg.to_string(), tmp, pend, rt, layers, faults }
 }
 
 pub fn apath(cx: &Conc, root: &AsyncVfsPath, p: &[String]) -> AsyncVfsPath {
@@ -307,6 +403,9 @@ pub fn apath(cx: &Conc, root: &AsyncVfsPath, p: &[String]) -> AsyncVfsPath {
 }
 async fn aguard<T>(f: impl std::future::Future<Output = T>) -> Result<T, ()> {
     AssertUnwindSafe(f).catch_unwind().await.map_err(|_| ())
+}
+pub async fn aguard_pub<T>(f: impl std::future::Future<Output = T>) -> Result<T, ()> {
+    aguard(f).await
 }
 fn abs_of(cx: &Conc, s: &str) -> Vec<String> {
     cx.names.abs_path(s).unwrap_or_else(|| vec![format!("!raw:{s}")])
